@@ -133,6 +133,7 @@ def step (st : DState) (line : String) : DState × String :=
   | ["recpath", en, p] =>
     let (q, r) := recursivePath (en == "1") (unhex p)
     (st, s!"{hex q} {if r then 1 else 0}")
+  | "scenario" :: _ => (st, "ok")
   | ["branches"] => (st, "B " ++ ";".intercalate (st.branches.map fun (k, n) => s!"{k}={n}"))
   | _ => (st, "bad-op")
 
